@@ -9,7 +9,8 @@ EXTENDS Gen_Client
 
 CONSTANTS StartOps,    \* operations the application may start in this search
           EnvAbandon,  \* may it give futures up
-          EnvHold      \* may the transport exert back-pressure
+          EnvHold,     \* may the transport exert back-pressure
+          Want         \* the goals this search is after (a state in which one of them holds is not expanded further)
 
 SubReqs == {i \in Waiting : req[i].k = "psub"}
 CallReqs == {i \in Waiting : req[i].k = "call"}
@@ -35,18 +36,22 @@ DNext == /\ Len(script) < ScriptLen
 GView == <<View, held>>
 NotifAfterP(i, s) == \E j \in (i + 1)..Len(script) : script[j].op = "peer" /\ script[j].m.t = "notif" /\ script[j].m.sub = s
 Consumed0 == inq = <<>> /\ fwd = <<>> /\ toBack = <<>> /\ held = "no"
-DInit == GInit /\ \A i \in 11..17 : TLCSet(i, 0)
+DInit == GInit /\ \A i \in 11..18 : TLCSet(i, 0)
 (* a state in which a goal holds is not expanded further *)
+LagTwice == \E h, g \in Subs : h # g /\ stream[h].lagged /\ stream[g].lagged /\ stream[h].sub # NoId /\ stream[g].sub = stream[h].sub
+                                 /\ unsubSent[stream[h].sub] >= 2
 GoalHolds ==
-  \/ (Consumed0 /\ \E h \in Subs : \E i \in 1..Len(script) : script[i].op = "drop" /\ script[i].h = h /\ script[i].lost /\ NotifAfterP(i, stream[h].sub))
-  \/ (Consumed0 /\ \E h \in Subs : stream[h].lagged /\ stream[h].sub # NoId /\ unsubSent[stream[h].sub] >= 1)
-  \/ (Consumed0 /\ \E h \in Subs : fe[h].st = "abandoned" /\ stream[h].sub # NoId /\ unsubSent[stream[h].sub] >= 1)
-  \/ (Consumed0 /\ \E h \in Subs : fe[h].res = [k |-> "fail", why |-> "invalidSubId"])
+  \/ ("lostDropThenPush" \in Want /\ Consumed0 /\ \E h \in Subs : \E i \in 1..Len(script) : script[i].op = "drop" /\ script[i].h = h /\ script[i].lost /\ NotifAfterP(i, stream[h].sub))
+  \/ ("lagged" \in Want /\ Consumed0 /\ \E h \in Subs : stream[h].lagged /\ stream[h].sub # NoId /\ unsubSent[stream[h].sub] >= 1)
+  \/ ("abandonThenAccept" \in Want /\ Consumed0 /\ \E h \in Subs : fe[h].st = "abandoned" /\ stream[h].sub # NoId /\ unsubSent[stream[h].sub] >= 1)
+  \/ ("duplicateSubId" \in Want /\ Consumed0 /\ \E h \in Subs : fe[h].res = [k |-> "fail", why |-> "invalidSubId"])
+  \/ ("lagTwiceSameId" \in Want /\ Consumed0 /\ LagTwice)
 Prune == ~GoalHolds
 
 (* each goal is emitted a few times only (a TLC register per goal and worker counts them), for different states reaching it *)
 GoalNo(name) == CASE name = "lostDropThenPush" -> 11 [] name = "lagged" -> 12 [] name = "abandonThenAccept" -> 13
                   [] name = "sendErrOnUnsub" -> 14 [] name = "closeThenLeave" -> 15 [] name = "duplicateSubId" -> 16 [] name = "reuseThenDropEnded" -> 17
+                  [] name = "lagTwiceSameId" -> 18
 PerGoal == 3
 Emit(name) == IF TLCGet(GoalNo(name)) < PerGoal
                 THEN TLCSet(GoalNo(name), TLCGet(GoalNo(name)) + 1) /\ PrintT(<<"REPLAY", ToJson([goal |-> name, script |-> script])>>)
@@ -74,6 +79,9 @@ G_ReuseThenDropEnded == (Consumed /\ \E h, g \in Subs : h # g /\ stream[h].rx = 
                          /\ \E i \in 1..Len(script) : script[i].op = "dropEnded" /\ script[i].h = h
                                 /\ \E j \in 1..(i - 1) : script[j].op = "peer" /\ script[j].m.t = "resp" /\ script[j].m.sub = stream[h].sub /\ script[j].m.id = fe[g].id)
                         => Emit("reuseThenDropEnded")
+(* the server gives the id of a subscription that was closed for lagging to the next one, and that one falls behind too: the  *)
+(* client writes an unsubscribe for each of them                                                                              *)
+G_LagTwiceSameId == (Consumed /\ LagTwice) => Emit("lagTwiceSameId")
 (* two subscriptions are given the same id by the server *)
 G_DuplicateSubId == (Consumed /\ \E h \in Subs : fe[h].res = [k |-> "fail", why |-> "invalidSubId"]) => Emit("duplicateSubId")
 =============================================================================
